@@ -128,6 +128,10 @@ func neutralText(g *RNG) string {
 	if g.Chance(0.3) {
 		fmt.Fprintf(&sb, "some_top_level_key = %d\n", g.Intn(100))
 	}
+	if g.Chance(0.4) {
+		// top-level keys that happen to be called like some lint's option: still nobody's section
+		sb.WriteString(pick(g, []string{"Rounds = 0\n", "Rounds = -3\n", "Skip = true\n", "CrossCert = true\n", "SubscriberCRL = false\n", "flag = true\nnum = 99\ntext = \"top-level\"\n", "Rounds = 1\nSkip = true\nCrossCert = true\nSubscriberCRL = false\nnum = 5\n"}))
+	}
 	n := g.Range(1, 3)
 	used := map[string]bool{}
 	for i := 0; i < n; i++ {
